@@ -90,4 +90,49 @@ theorem corr6_gen (evs : List (Event ℝ)) : Gen.QCumulant.corr6 evs = QC.corr6 
     congr 1
     simp
 
+/-! ### the scalar decision logic regenerated from `__init__`, `__cumulant_flow`, `__flow_from_cumulant`,
+`__flow_from_cumulant_differential` equals the hand-written model's -/
+
+/-- the generated table `cumulant_factor_` on the orders `__init__` admits -/
+theorem factor_gen (k : ℕ) (hk : k = 2 ∨ k = 4 ∨ k = 6) : (Gen.QCumulant.factor k : ℝ) = QC.factor k := by
+  rcases hk with rfl | rfl | rfl <;> simp [Gen.QCumulant.factor, QC.factor]
+
+/-- the generated cumulant combinations are the model's `cumulant` -/
+theorem cumulant_gen (evs : List (Event ℝ)) :
+    QC.cumulant 2 evs = some (Gen.QCumulant.cum2 (QC.corr2 evs) (QC.corr4 evs) (QC.corr6 evs)) ∧
+    QC.cumulant 4 evs = some (Gen.QCumulant.cum4 (QC.corr2 evs) (QC.corr4 evs) (QC.corr6 evs)) ∧
+    QC.cumulant 6 evs = some (Gen.QCumulant.cum6 (QC.corr2 evs) (QC.corr4 evs) (QC.corr6 evs)) := by
+  refine ⟨?_, ?_, ?_⟩ <;>
+    simp only [QC.cumulant, Gen.QCumulant.cum2, Gen.QCumulant.cum4, Gen.QCumulant.cum6, Option.some.injEq, npow_eq_pow, nat] <;>
+    (try push_cast) <;> (try ring1)
+
+/-- the generated `__flow_from_cumulant` is the model's, for every admitted order, option and cumulant value -/
+theorem flowFromCumulant_gen (root : ℝ → ℕ → ℝ) (k : ℕ) (hk : k = 2 ∨ k = 4 ∨ k = 6) (im : Imag) (c : ℝ) :
+    Gen.QCumulant.flowFromCumulant root k im c = QC.flowFromCumulant root k im c := by
+  unfold Gen.QCumulant.flowFromCumulant QC.flowFromCumulant
+  rw [factor_gen k hk]
+  by_cases h : nat 0 ≤ QC.factor k * c
+  · simp [h]
+  · cases im <;> simp [h]
+
+/-- the generated `__flow_from_cumulant_differential` is the model's, for every order, option and pair of values -/
+theorem dflow_gen (rootp : ℝ → ℕ → ℕ → ℝ) (k : ℕ) (im : Imag) (c d : ℝ) :
+    Gen.QCumulant.dflow rootp k im c d = QC.dflow rootp k im c d := by
+  by_cases h4 : k = 4
+  · subst h4
+    unfold Gen.QCumulant.dflow QC.dflow
+    rw [factor_gen 4 (by simp)]
+    by_cases h : c < nat 0
+    · simp [h]
+    · cases im <;> simp [h]
+  · by_cases h2 : k = 2
+    · subst h2
+      unfold Gen.QCumulant.dflow QC.dflow
+      rw [factor_gen 2 (by simp)]
+      by_cases h : nat 0 < c
+      · simp [h]
+      · cases im <;> simp [h]
+    · unfold Gen.QCumulant.dflow QC.dflow
+      simp only [h4, h2, if_false]
+
 end SparkxVerif.QCGen
